@@ -3,6 +3,7 @@ mod engine;
 mod exact;
 mod props;
 mod pu;
+mod fu;
 mod report;
 mod world;
 
